@@ -6,6 +6,7 @@ import (
 	"errors"
 	"fmt"
 	"reflect"
+	"strings"
 	"sync"
 	"testing"
 	"time"
@@ -40,6 +41,7 @@ type Case struct {
 	ReadLimit      int         `json:"read_limit,omitempty"`
 	CtlLen         int         `json:"ctl_len,omitempty"`
 	CtlOp          int         `json:"ctl_op,omitempty"`
+	CtlAPI         string      `json:"ctl_api,omitempty"` // "" = WriteMessage, "close" = WriteClose(code, reason), "frame" = WriteFrame
 }
 
 var inline = func(f func()) { f() }
@@ -135,11 +137,24 @@ func runCaseInner(c Case) vlib.Result {
 		if c.CtlOp == vlib.OpClose && c.CtlLen >= 2 {
 			binary.BigEndian.PutUint16(payload, 1000)
 		}
-		err := wsc.WriteMessage(websocket.MessageType(c.CtlOp), payload)
+		var err error
+		api := "WriteMessage"
+		switch {
+		case c.CtlAPI == "close" && c.CtlOp == vlib.OpClose && c.CtlLen >= 2:
+			// the payload of the frame is the 2-byte status code plus the reason
+			api = fmt.Sprintf("WriteClose(1000, reason of %d bytes)", c.CtlLen-2)
+			err = wsc.WriteClose(1000, string(payload[2:]))
+		case c.CtlAPI == "frame":
+			api = "WriteFrame"
+			err = wsc.WriteFrame(websocket.MessageType(c.CtlOp), true, true, payload)
+		default:
+			err = wsc.WriteMessage(websocket.MessageType(c.CtlOp), payload)
+		}
+		res.Classes = append(res.Classes, "send-api="+api[:strings.IndexAny(api+"(", "(")])
 		wire := conn.Bytes()
 		if c.CtlLen > 125 {
 			if err == nil || len(wire) != 0 {
-				res.Err = fmt.Errorf("WriteMessage(control opcode %d, %d bytes) returned %v and wrote %d bytes; control payloads above 125 must be refused", c.CtlOp, c.CtlLen, err, len(wire))
+				res.Err = fmt.Errorf("%s (control opcode %d, payload %d bytes) returned %v and wrote %d bytes; control payloads above 125 must be refused", api, c.CtlOp, c.CtlLen, err, len(wire))
 				return res
 			}
 			if !errors.Is(err, websocket.ErrControlMessageTooBig) {
@@ -148,7 +163,7 @@ func runCaseInner(c Case) vlib.Result {
 		} else {
 			frames, rest, derr := vlib.DecodeWSFrames(wire)
 			if err != nil || derr != nil || len(rest) != 0 || len(frames) != 1 || !frames[0].Fin || frames[0].Op != c.CtlOp || len(frames[0].Payload) != c.CtlLen {
-				res.Err = fmt.Errorf("WriteMessage(control opcode %d, %d bytes): err=%v, wire decodes to %d frames (decode err %v)", c.CtlOp, c.CtlLen, err, len(frames), derr)
+				res.Err = fmt.Errorf("%s (control opcode %d, %d bytes): err=%v, wire decodes to %d frames (decode err %v)", api, c.CtlOp, c.CtlLen, err, len(frames), derr)
 				return res
 			}
 		}
@@ -406,7 +421,8 @@ func gen(maxBomb int) func(t *rapid.T) Case {
 		case 0:
 			c.Mode = "send-control"
 			c.CtlOp = rapid.SampledFrom([]int{vlib.OpPing, vlib.OpPong, vlib.OpClose}).Draw(t, "ctlop")
-			c.CtlLen = rapid.SampledFrom([]int{0, 2, 124, 125, 126, 127, 200, 65536}).Draw(t, "ctllen")
+			c.CtlLen = rapid.SampledFrom([]int{0, 2, 123, 124, 125, 126, 127, 128, 200, 65536}).Draw(t, "ctllen")
+			c.CtlAPI = rapid.SampledFrom([]string{"", "close", "frame"}).Draw(t, "ctlapi")
 			c.L = 0
 			return c
 		case 2:
